@@ -168,24 +168,29 @@ def m_einsum_act(ex, st, args, kwargs, node):
 def _td_parts(v):
     if isinstance(v, VArr) and v.ndim == 3 and v.tag == 'core' and v.t is not None:
         return [v.t]
-    if isinstance(v, VArr) and v.tag == 'tdot' and v.lead is None and v.trail is None:
+    if isinstance(v, VArr) and v.tag == 'tdot' and v.lead is None and v.trail is None and not v.fixed:
         return list(v.t)
     return None
 
 
-def mk_tdot(shape, parts, lead=None, trail=None):
+def mk_tdot(shape, parts, lead=None, trail=None, fixed=None):
     v = VArr(shape, tuple(parts), 'tdot')
-    v.lead, v.trail = lead, trail
+    v.lead, v.trail, v.fixed = lead, trail, dict(fixed or {})
     return v
 
 
 def tdot_entry(v, idx):
-    """The entry of a fully indexed 'tdot' array at the mode indices idx (leading / trailing axis already dropped)."""
-    if not (isinstance(v, VArr) and v.tag == 'tdot' and v.lead is not None and v.trail is not None and len(idx) == len(v.t)):
+    """The entry of a 'tdot' array (leading and trailing rank axis dropped) at the indices idx of its remaining mode axes."""
+    if not (isinstance(v, VArr) and v.tag == 'tdot' and v.lead is not None and v.trail is not None):
         raise ContractMismatch('not a dense export of a chain of cores with both rank axes dropped')
-    m = T.sl(v.t[0], idx[0])
-    for g, i in zip(v.t[1:], idx[1:]):
-        m = T.mm(m, T.sl(g, i))
+    free = [k for k in range(len(v.t)) if k not in v.fixed]
+    if len(free) != len(idx):
+        raise ContractMismatch('number of indices does not match the number of mode axes')
+    pos = dict(v.fixed)
+    pos.update(zip(free, idx))
+    m = T.sl(v.t[0], Z(pos[0]))
+    for k in range(1, len(v.t)):
+        m = T.mm(m, T.sl(v.t[k], Z(pos[k])))
     return T.ent(m, Z(v.lead), Z(v.trail))
 
 
@@ -197,8 +202,8 @@ def m_tensordot_chain(ex, st, args, kwargs, node):
     a, b = st.deref(args[0]), st.deref(args[1])
     axes = args[2] if len(args) > 2 else kwargs.get('axes', 2)
     pa, pb = _td_parts(a), _td_parts(b)
-    if isinstance(axes, int) and axes == 1 and pa is not None and pb is not None and len(pb) == 1:
-        used('np.tensordot(Z, G, 1) for a contracted chain of cores Z and a core G -> the chain extended by G '
+    if isinstance(axes, int) and axes == 1 and pa is not None and pb is not None:
+        used('np.tensordot(Z, G, 1) for contracted chains of cores Z and G -> the concatenated chain '
              '(entry [a, i.., b] = (product of the mode slices)[a, b]); contracted dimensions must agree')
         ex.oblige(st, 'call-pre', 'tensordot-contracted-dims-agree', Z(a.shape[-1]) == Z(b.shape[0]), node)
         return mk_tdot(tuple(a.shape[:-1]) + tuple(b.shape[1:]), pa + pb)
@@ -213,16 +218,32 @@ _orig_index = M.arr_index
 
 
 def arr_index(ex, st, a, sl_, node):
-    if isinstance(a, VArr) and a.tag == 'tdot' and isinstance(sl_, ast.Tuple) and len(sl_.elts) == 2 and a.ndim >= 2:
+    if isinstance(a, VArr) and a.ndim >= 2 and isinstance(sl_, ast.Tuple) and len(sl_.elts) == 2 \
+            and (a.tag == 'tdot' or a.tag is None or (a.tag == 'core' and a.t is not None)):
         e0, e1 = sl_.elts
-        if _is_ellipsis(e1) and not _is_ellipsis(e0) and not isinstance(e0, ast.Slice) and a.lead is None:
-            i = M.norm_index(ex, st, ex.need_num(st, ex.ev(e0, st), node), a.shape[0], node, 'array-index')
-            used('Z[i, ...] -> the sub-array at position i of the first axis (all other axes kept, also those of length 1)')
-            return mk_tdot(a.shape[1:], a.t, i, a.trail)
-        if _is_ellipsis(e0) and not _is_ellipsis(e1) and not isinstance(e1, ast.Slice) and a.trail is None:
-            i = M.norm_index(ex, st, ex.need_num(st, ex.ev(e1, st), node), a.shape[-1], node, 'array-index')
-            used('Z[..., i] -> the sub-array at position i of the last axis (all other axes kept, also those of length 1)')
-            return mk_tdot(a.shape[:-1], a.t, a.lead, i)
+        first = _is_ellipsis(e1) and not _is_ellipsis(e0) and not isinstance(e0, ast.Slice)
+        last = _is_ellipsis(e0) and not _is_ellipsis(e1) and not isinstance(e1, ast.Slice)
+        if first or last:
+            ax = 0 if first else a.ndim - 1
+            iv = st.deref(ex.ev(e0 if first else e1, st))
+            if not isinstance(iv, VArr):
+                i = M.norm_index(ex, st, ex.need_num(st, iv, node), a.shape[ax], node, 'array-index')
+                used('Z[i, ...] / Z[..., i] -> the sub-array at position i of the first / last axis (all other axes kept, also those of length 1)')
+                shp = tuple(a.shape[1:]) if first else tuple(a.shape[:-1])
+                if a.tag is None:
+                    return VArr(shp, None, None, a.dtype)
+                t = a if a.tag == 'tdot' else mk_tdot(a.shape, [a.t])
+                lead, trail, fixed = t.lead, t.trail, dict(t.fixed)
+                free = [k for k in range(len(t.t)) if k not in fixed]
+                if first and lead is None:
+                    lead = i
+                elif last and trail is None:
+                    trail = i
+                elif free:
+                    fixed[free[0] if first else free[-1]] = i
+                else:
+                    raise Unsupported('indexing a 0-d array')
+                return mk_tdot(shp, t.t, lead, trail, fixed)
     return _orig_index(ex, st, a, sl_, node)
 
 
@@ -233,7 +254,7 @@ M.arr_index = arr_index
 def m_squeeze_chain(ex, st, args, kwargs, node):
     """np.squeeze(Z) removes EVERY axis of length 1: the number of axes of the result depends on the mode sizes (one path per case)."""
     a = st.deref(args[0])
-    if not (isinstance(a, VArr) and a.tag == 'tdot' and a.lead is None and a.trail is None and len(args) == 1 and not kwargs):
+    if not (isinstance(a, VArr) and a.tag == 'tdot' and a.lead is None and a.trail is None and not a.fixed and len(args) == 1 and not kwargs):
         raise Unsupported('np.squeeze pattern')
     used('np.squeeze(Z) -> every axis of length 1 is removed (a case split over the axes whose length may be 1)')
     keep, fixed = [], {}
@@ -249,6 +270,178 @@ def m_squeeze_chain(ex, st, args, kwargs, node):
                 fixed[k - 1] = 0
         else:
             keep.append(n)
-    out = mk_tdot(tuple(keep), a.t, lead, trail)
-    out.fixed = fixed
-    return out
+    return mk_tdot(tuple(keep), a.t, lead, trail, fixed)
+
+
+# ----------------------------------------------------------------------------------------------
+# batched element access (act_one.get_many)
+#
+# Value kinds (plain VArr with a tag; `t` holds the denotation so that np.asanyarray keeps it):
+#   'idxbatch'  2-D int array (m, w):      t = rows, a z3 array  s -> (k -> I[s, k])                 (a batch of multi-indices)
+#   'idxcol'    1-D int array (m,):        t = (rows, k): the column I[..., k]
+#   'matbatch'  3-D float array (a, m, b): t = MB, a z3 array  s -> Mat  with  X[:, s, :] = MB[s]    (a x b matrices)
+#   'rowbatch'  2-D float array (m, b):    t = RB, a z3 array  s -> Mat  with  X[s, :]  = the 1 x b matrix RB[s]
+# The facts about fresh batches are quantified over the sample number s with the pattern MB[s] / RB[s].
+
+IM = z3.ArraySort(I, T.IDX)
+MB = z3.ArraySort(I, T.Mat)
+_s = z3.Int('s!x')
+
+
+def idx_batch(rows, m, w):
+    return VArr((m, w), rows, 'idxbatch', 'i')
+
+
+def mk_batch(shape, arr, tag):
+    return VArr(shape, arr, tag, 'f')
+
+
+def _mode_indices_ok(ex, st, col, n, node):
+    rows, k = col.t
+    ex.oblige(st, 'call-pre', 'batch-mode-indices-in-range',
+              z3.ForAll([_s], z3.Implies(z3.And(0 <= _s, _s < Z(col.shape[0])), z3.And(0 <= rows[_s][k], rows[_s][k] < Z(n)))), node)
+
+
+_orig_index_b = M.arr_index
+
+
+def arr_index_batch(ex, st, a, sl_, node):
+    elts = sl_.elts if isinstance(sl_, ast.Tuple) else [sl_]
+    full = lambda e: isinstance(e, ast.Slice) and e.lower is None and e.upper is None and e.step is None
+    if isinstance(a, VArr) and a.tag == 'idxbatch' and len(elts) == 2 and _is_ellipsis(elts[0]) and not isinstance(elts[1], ast.Slice) \
+            and not _is_ellipsis(elts[1]):
+        kv = ex.ev(elts[1], st)
+        if is_num(kv) and is_intsort(kv):
+            k = M.norm_index(ex, st, kv, a.shape[1], node, 'column-index')
+            used('I[..., k] of a 2-D integer array -> its k-th column')
+            return VArr((a.shape[0],), (a.t, Z(k)), 'idxcol', 'i')
+    if isinstance(a, VArr) and a.tag in ('rowbatch', 'matbatch') and len(elts) == 2 and _is_ellipsis(elts[0]) \
+            and not isinstance(elts[1], ast.Slice) and not _is_ellipsis(elts[1]):
+        cv = ex.ev(elts[1], st)
+        if is_num(cv) and is_intsort(cv):
+            c = Z(M.norm_index(ex, st, cv, a.shape[-1], node, 'column-index'))
+            if a.tag == 'rowbatch':
+                used('Q[..., c] of a (samples, r) array -> the vector of the c-th entries of its rows')
+                arr = ex.fresh('vals', RA)
+                st.assume(z3.ForAll([_s], z3.Implies(z3.And(0 <= _s, _s < Z(a.shape[0])), arr[_s] == T.ent(a.t[_s], 0, c)), patterns=[arr[_s]]))
+                return mk_wvec(a.shape[0], arr)
+            used('Q[..., c] of a 3-D array -> 2-D array without the last axis')
+            return VArr(tuple(a.shape[:-1]), None, None, 'f')
+    if isinstance(a, VArr) and a.ndim == 3 and a.tag == 'core' and a.t is not None and len(elts) == 3 and full(elts[2]) \
+            and not isinstance(elts[1], ast.Slice) and not _is_ellipsis(elts[1]):
+        col = st.deref(ex.ev(elts[1], st))
+        if isinstance(col, VArr) and col.tag == 'idxcol':
+            rows, k = col.t
+            m = col.shape[0]
+            if full(elts[0]):
+                _mode_indices_ok(ex, st, col, a.shape[1], node)
+                used('G[:, J, :] with a 1-D integer array J -> array (r1, len J, r2) whose s-th slice is G[:, J[s], :]')
+                arr = ex.fresh('gather', MB)
+                st.assume(z3.ForAll([_s], z3.Implies(z3.And(0 <= _s, _s < Z(m)), arr[_s] == T.sl(a.t, rows[_s][k])), patterns=[arr[_s]]))
+                return mk_batch((a.shape[0], m, a.shape[2]), arr, 'matbatch')
+            if not isinstance(elts[0], ast.Slice) and not _is_ellipsis(elts[0]):
+                r0 = Z(M.norm_index(ex, st, ex.need_num(st, ex.ev(elts[0], st), node), a.shape[0], node, 'row-index'))
+                _mode_indices_ok(ex, st, col, a.shape[1], node)
+                used('G[a, J, :] with a 1-D integer array J -> array (len J, r2) whose s-th row is G[a, J[s], :]')
+                arr = ex.fresh('gatherrow', MB)
+                st.assume(z3.ForAll([_s], z3.Implies(z3.And(0 <= _s, _s < Z(m)), arr[_s] == T.row(T.sl(a.t, rows[_s][k]), r0)), patterns=[arr[_s]]))
+                return mk_batch((m, a.shape[2]), arr, 'rowbatch')
+    return _orig_index_b(ex, st, a, sl_, node)
+
+
+M.arr_index = arr_index_batch
+_orig_einsum2 = M.FUNCS['np.einsum']
+
+
+@model('np.einsum')
+def m_einsum_batch(ex, st, args, kwargs, node):
+    sub = args[0].concrete() if args and isinstance(args[0], VStr) else None
+    key = (sub or '').replace(' ', '')
+    ops = [st.deref(a) for a in args[1:]]
+    if key == '...q,q...r->...r' and len(ops) == 2 and not kwargs and all(isinstance(o, VArr) for o in ops) \
+            and ops[0].tag in ('rowbatch', 'matbatch') and ops[1].tag == 'matbatch':
+        Q, B = ops
+        m = Q.shape[-2]
+        used("np.einsum('...q,q...r->...r', Q, B) with Q (.., samples, q) and B (q, samples, r) -> for every sample s the product "
+             "Q[.., s, :] @ B[:, s, :]; requires equal q and equal numbers of samples")
+        ex.oblige(st, 'call-pre', 'einsum-contracted-dimensions-agree', Z(Q.shape[-1]) == Z(B.shape[0]), node)
+        ex.oblige(st, 'call-pre', 'einsum-batch-dimensions-agree', Z(m) == Z(B.shape[1]), node)
+        arr = ex.fresh('batchprod', MB)
+        st.assume(z3.ForAll([_s], z3.Implies(z3.And(0 <= _s, _s < Z(m)), arr[_s] == T.mm(Q.t[_s], B.t[_s])), patterns=[arr[_s]]))
+        return mk_batch(tuple(Q.shape[:-1]) + (B.shape[2],), arr, Q.tag)
+    return _orig_einsum2(ex, st, args, kwargs, node)
+
+
+def fresh_batch(ex, st, like, name='Q'):
+    """Loop havoc of a batch value: same kind, same number of samples, fresh contents and fresh trailing dimension."""
+    r = ex.fresh_int(name + '_cols')
+    st.assume(r >= 0)
+    return mk_batch(tuple(like.shape[:-1]) + (r,), ex.fresh(name + '_batch', MB), like.tag)
+
+
+# ----------------------------------------------------------------------------------------------
+# relative error on a data set (data.accuracy_on_data): difference of two real vectors, Euclidean norm of a real vector
+
+vnorm = z3.Function('vnorm', RA, I, R)
+_n = z3.Int('n!x')
+T.GROUPS['vnorm'] = [
+    T.A([_w, _n], vnorm(_w, _n) >= 0, [vnorm(_w, _n)]),
+    T.A([_w], vnorm(_w, 0) == 0, [vnorm(_w, 0)]),
+]
+
+_orig_binop_v = M.arr_binop
+
+
+def arr_binop_vec(ex, st, op, l, r, node):
+    if isinstance(op, (ast.Sub, ast.Add)) and is_wvec(l) and is_wvec(r):
+        used('u - v / u + v for two 1-D float arrays -> elementwise (requires equal lengths)')
+        ex.oblige(st, 'call-pre', 'elementwise-shapes-agree', Z(l.shape[0]) == Z(r.shape[0]), node)
+        arr = ex.fresh('vdiff' if isinstance(op, ast.Sub) else 'vsum', RA)
+        f = (lambda a, b: a - b) if isinstance(op, ast.Sub) else (lambda a, b: a + b)
+        st.assume(z3.ForAll([_s], arr[_s] == f(l.t[_s], r.t[_s]), patterns=[arr[_s]]))
+        out = mk_wvec(l.shape[0], arr)
+        st.ghost.setdefault('vec_ops', []).append(('sub' if isinstance(op, ast.Sub) else 'add', l, r, out))
+        return out
+    return _orig_binop_v(ex, st, op, l, r, node)
+
+
+M.arr_binop = arr_binop_vec
+_orig_norm = M.FUNCS['np.linalg.norm']
+
+
+@model('np.linalg.norm')
+def m_norm_vec(ex, st, args, kwargs, node):
+    v = st.deref(args[0]) if args else None
+    if len(args) == 1 and not kwargs and is_wvec(v):
+        used('np.linalg.norm(v) of a 1-D float array -> vnorm(v, len v), the Euclidean norm (>= 0)   [A-REAL]')
+        x = vnorm(v.t, Z(v.shape[0]))
+        st.ghost.setdefault('vnorms', []).append((v, x))
+        return x
+    return _orig_norm(ex, st, args, kwargs, node)
+
+
+# ----------------------------------------------------------------------------------------------
+# enumerate(xs, start): models.iteration ignores the start value (it would silently count from 0); handled here
+
+_orig_iteration = M.iteration
+
+
+def iteration(ex, st, it, node):
+    if isinstance(it, ast.Call) and ast.unparse(it.func) == 'enumerate' and (len(it.args) == 2 or it.keywords):
+        if len(it.args) not in (1, 2) or [k.arg for k in it.keywords] not in ([], ['start']) or (len(it.args) == 2 and it.keywords):
+            raise Unsupported('enumerate calling pattern')
+        sn = it.args[1] if len(it.args) == 2 else it.keywords[0].value
+        start = ex.need_num(st, ex.ev(sn, st), node)
+        if not is_intsort(start):
+            raise Unsupported('enumerate with a non-integer start')
+        inner = iteration(ex, st, it.args[0], node)
+        used('enumerate(xs, start) -> pairs (start + j, xs[j])')
+        if inner.concrete is not None and isinstance(start, int):
+            return M.Iteration(concrete=[VTuple([start + i, b]) for i, b in enumerate(inner.concrete)])
+        if inner.concrete is not None:
+            raise Unsupported('enumerate of a concrete iterable with a symbolic start')
+        return M.Iteration(n=inner.n, bind=lambda ex_, st_, j: VTuple([Z(start) + j, inner.bind(ex_, st_, j)]))
+    return _orig_iteration(ex, st, it, node)
+
+
+M.iteration = iteration
